@@ -103,6 +103,13 @@ func c08Rules(c *Ctx) {
 				if _, isMover := movers[p.Name(fn)]; isMover && paramIndexOf(fn, target) >= 0 {
 					continue // the wrapper hands its own parameter on; its callers are checked
 				}
+				if shapes := p.stickyMoveShapes(); shapes != nil && shapes.isHandBack(p, s) {
+					// tabled exception (F22): the target is the member the partition came from earlier in this plan; see
+					// stickyMoveShapes.isHandBack for why it is eligible and participating
+					nMoves++
+					c.OK(rule, fn, "sticky:hand-back-target:"+shortCallee(callee), s.Instr(), "the partition returns to the member that owned it when this plan started (eligible: it holds a partition of the same topic; participating: it took part in an earlier move of this plan)")
+					continue
+				}
 				nMoves++
 				l := fi.InnermostLoop(itemBlock(s))
 				reg := WholeFn(fn)
@@ -166,6 +173,37 @@ func c08Rules(c *Ctx) {
 	}
 	if nMoves < 2 {
 		c.Unresolved(rule, "calls that move a partition to another member (reassignPartition / processPartitionMovement)")
+	}
+	// progress of performReassignments: a reassignment takes one partition away from the member the caller found
+	// overloaded (the current owner of the requested partition).  getTheActualPartitionToBeMoved may choose another
+	// partition of the topic to travel instead; if that one sits on a different member, the requested partition must be
+	// handed back to that member as well — otherwise the overloaded member keeps its load, the move is reverted by the
+	// ordinary balancing rule and the outer loop of performReassignments never ends (F22).
+	if shapes := p.stickyMoveShapes(); shapes != nil {
+		fn := shapes.fn
+		reg := WholeFn(fn)
+		finals := reg.Find(func(it Item) bool {
+			cl, ok := it.In.(*ssa.Call)
+			if !ok || p.CalleeName(&cl.Call) != "stickyBalanceStrategy.processPartitionMovement" {
+				return false
+			}
+			callee := cl.Call.StaticCallee()
+			iPart := paramIdxByName(callee, "partition", 1)
+			return iPart < len(cl.Call.Args) && shapes.chosen(cl.Call.Args[iPart])
+		})
+		if len(finals) == 0 {
+			c.Unresolved(rule, "the move of the partition chosen by getTheActualPartitionToBeMoved in reassignPartition")
+		}
+		for _, f := range finals {
+			r := *reg
+			r.Cut = func(from, to *ssa.BasicBlock) bool {
+				return Establishes(from, to, Cmp{token.EQL, shapes.owner, shapes.consumer})
+			}
+			handBack := func(it Item) bool { return shapes.isHandBack(p, it) }
+			it, path := r.Reach(IsItem(f), handBack)
+			c.Check(it.IsZero(), rule, fn, "sticky:move-relieves-requested-owner", f.Instr(), "the partition chosen by the movement record is moved only where its owner is the requested partition's owner, or after the requested partition was handed back to that owner",
+				"reassignPartition can move a partition that sits on another member than the one the caller found overloaded (getTheActualPartitionToBeMoved substitutes a partition of the member the requested partition came from) without relieving the overloaded member: the move is undone by the next balancing step and performReassignments repeats the same two moves forever — Plan never returns", path)
+		}
 	}
 	// the move itself keeps every partition with exactly one owner: it is taken from the list of its actual
 	// current owner (looked up for the very partition moved), appended to the new owner's list, and the owner
